@@ -52,6 +52,36 @@ func parseCallbacks(p *core.Program) []*ssa.Function {
 	return out
 }
 
+// retCases expands a callback's (stop, err) result into definite cases. A
+// result of the form (e != nil, e) is the two cases (false, nil) and (true, e).
+type retCase struct {
+	stop, stopKnown bool
+	err             absint.Value
+	errNonNil       bool // the case assumes err != nil
+}
+
+func retCases(x *absint.Exec, st *absint.State, ret []absint.Value) []retCase {
+	stop, known := boolOf(ret[0])
+	if known {
+		return []retCase{{stop, true, ret[1], false}}
+	}
+	if t, ok := ret[0].(*absint.Term); ok && (t.Op == "!=" || t.Op == "==") && len(t.Args) >= 2 {
+		for i := 0; i < 2; i++ {
+			if isNilConst(t.Args[1-i]) && t.Args[i].Key() == ret[1].Key() {
+				neq := t.Op == "!="
+				switch nilnessOf(x, st, ret[1]) {
+				case "nil":
+					return []retCase{{!neq, true, absint.Const{Nil: true}, false}}
+				case "nonnil":
+					return []retCase{{neq, true, ret[1], true}}
+				}
+				return []retCase{{!neq, true, absint.Const{Nil: true}, false}, {neq, true, ret[1], true}}
+			}
+		}
+	}
+	return []retCase{{false, false, ret[1], false}}
+}
+
 // ruleCallbackConsumers decides, for every ParseCallback of the tree,
 //   C08-R1 (consumer): with (nil record, non-nil error) the record is never dereferenced;
 //   C09-R3: with an error the callback stops with an error that derives from it, or writes it out and continues;
@@ -125,13 +155,17 @@ func ruleCallbackConsumers(c *core.Ctx, want map[string]bool) {
 			if len(tm.Ret) != 2 {
 				continue
 			}
-			stop, stopKnown := boolOf(tm.Ret[0])
-			errV := tm.Ret[1]
+			for _, rc := range retCases(x, tm.State, tm.Ret) {
+			stop, stopKnown := rc.stop, rc.stopKnown
+			errV := rc.err
+			if isNilConst(errV) && absint.Mentions(tm.Ret[1], "perr") {
+				continue // (perr != nil, perr) with perr known non-nil: the nil case cannot occur
+			}
 			derives := absint.Mentions(errV, "perr")
 			reported := tm.State.Data["reported"] == "1"
 			switch {
 			case stopKnown && stop && derives:
-			case stopKnown && stop && !isNilConst(errV) && nilnessOf(x, tm.State, errV) == "nonnil" && reported:
+			case stopKnown && stop && !isNilConst(errV) && (rc.errNonNil || nilnessOf(x, tm.State, errV) == "nonnil") && reported:
 				// stops because reporting the error failed (lint on a broken sink)
 			case stopKnown && !stop && reported && isNilConst(errV):
 			default:
@@ -145,6 +179,7 @@ func ruleCallbackConsumers(c *core.Ctx, want map[string]bool) {
 					c.Violate("C17-R3", fname, "stop-with-error", c.P.Pos(tm.Pos), fmt.Sprintf("the callback returns the error %s with stop=%s: the parser only propagates a callback's error when it stops, so this error is lost", errV.Key(), tm.Ret[0].Key()), describe(x, tm))
 				}
 				bad17++
+			}
 			}
 		}
 		_ = wrote
@@ -160,12 +195,13 @@ func ruleCallbackConsumers(c *core.Ctx, want map[string]bool) {
 			if len(tm.Ret) != 2 {
 				continue
 			}
-			stop, stopKnown := boolOf(tm.Ret[0])
-			if !(stopKnown && stop) && !isNilConst(tm.Ret[1]) {
-				if want["C17-R3"] {
-					c.Violate("C17-R3", fname, "stop-with-error", c.P.Pos(tm.Pos), fmt.Sprintf("the callback returns the error %s with stop=%s: the parser only propagates a callback's error when it stops, so this error is lost", tm.Ret[1].Key(), tm.Ret[0].Key()), describe(x2, tm))
+			for _, rc := range retCases(x2, tm.State, tm.Ret) {
+				if !(rc.stopKnown && rc.stop) && !isNilConst(rc.err) {
+					if want["C17-R3"] {
+						c.Violate("C17-R3", fname, "stop-with-error", c.P.Pos(tm.Pos), fmt.Sprintf("the callback returns the error %s with stop=%s: the parser only propagates a callback's error when it stops, so this error is lost", tm.Ret[1].Key(), tm.Ret[0].Key()), describe(x2, tm))
+					}
+					bad17++
 				}
-				bad17++
 			}
 		}
 		if want["C09-R3"] && bad9 == 0 {
@@ -359,12 +395,15 @@ func ruleLintVerdict(c *core.Ctx, rule string) {
 	}
 	msgSeen := false
 	for _, tm := range terms {
-		if tm.Kind != "return" || len(tm.Ret) != 1 || !isNilConst(tm.Ret[0]) {
+		if tm.Kind != "return" || len(tm.Ret) != 1 {
 			continue
 		}
 		d := tm.State.Data
 		if d["sawerr"] == "1" {
 			continue
+		}
+		if !isNilConst(tm.Ret[0]) && d["okmsg"] != "1" {
+			continue // failed before the verdict
 		}
 		if d["okmsg"] == "1" {
 			msgSeen = true
